@@ -123,7 +123,7 @@ pub proof fn did_ord_lawful() ensures vstd::laws_cmp::obeys_cmp_spec::<Did>() {}
 //@        r is Ok <==> (1 <= t <= 255 && t <= delegates.seq().len())
 //@        r is Ok ==> r->Ok_0.val() == t
 //@  item enum Visibility
-//@    derive Debug, Clone
+//@    derive Debug, Clone, Default
 //@  item struct RawDoc
 //@    derive Debug, Clone
 //@  impl RawDoc
